@@ -665,7 +665,7 @@ def apply_event(objs, ev, params=NOPARAMS):
         import matplotlib.pyplot as plt
         c = objs[t]
         nuser = c.n_modes - len(c._internal_modes)
-        labels = None if a[3] == 99 else ["m%d" % i for i in range(nuser + a[3])]
+        labels = None if a[3] == 99 else [("m%d" % i if (i + nuser) % 3 else 10 * i) for i in range(nuser + a[3])]      # some labels are numbers
         given = None if labels is None else list(labels)
         try:
             lw.Display(c, display_loss=a[1], mode_labels=labels, display_type=a[0], show_parameter_values=a[2])
